@@ -280,3 +280,5 @@ def run(ctx: Ctx, repo: Repo, tier: str) -> None:
     rule_shrink(ctx, repo, tier)
     rule_merge(ctx, repo, tier)
     rule_td_to_dict(ctx, repo)
+    from .memo_rules import infer_no_memory
+    infer_no_memory(ctx, repo, "R-C04.6")
